@@ -119,6 +119,8 @@ def tasks(tier):
     for s in shapes:
         t.append({'f': 'rebin', 'shape': list(s)})
     t.append({'f': 'rebinrank'})
+    for d0 in (1, 2, 3, 4, 5):
+        t.append({'f': 'rebinbig', 'd0': d0, 'maxm': 120 if T else 60})
     return t
 
 
@@ -282,6 +284,13 @@ def run_task(task):
                 for dt in (('float64', 'float32') if not sample else ('float64', 'int32', 'int16')):
                     _do(acc, {'f': 'rebin', 'shape': shape, 'd': list(d), 'sample': sample, 'dtype': dt},
                         tuple(d) != tuple(shape))
+    elif f == 'rebinbig':
+        # large integral expansion factors in 1-D and along one axis of 2-D (index arithmetic of the expand branch)
+        d0 = task['d0']
+        for m in range(2, task['maxm'] + 1):
+            for sample in (False, True):
+                _do(acc, {'f': 'rebin', 'shape': [d0], 'd': [d0 * m], 'sample': sample, 'dtype': 'float64'}, True)
+                _do(acc, {'f': 'rebin', 'shape': [2, d0], 'd': [2, d0 * m], 'sample': sample, 'dtype': 'float64'}, True)
     elif f == 'rebinrank':
         for shape in ([4], [2, 3], [2, 2, 2]):
             for d in ([4], [2, 2], [4, 1], [2, 3, 1], [8], [2, 2, 2], [1]):
